@@ -452,6 +452,13 @@ pub enum Op {
     /// the same, but the added record has class CH: same owner and type, so it is grouped with the
     /// signed RRset, while the signed data only ever contains the IN records
     AddRecordOtherClass,
+    /// add the same attacker record twice (an RRset holds no duplicates: anything that combines
+    /// per-record values commutatively must not let the pair cancel out)
+    AddRecordTwice,
+    /// reverse the order of the RRset's records in the section. The order carries no meaning and
+    /// the RRSIG does not depend on it: the verdict must not change, in particular a secure
+    /// delegation must not become insecure because of the order of its DS records
+    Reverse,
     /// DS only: digest and key tag of the attacker's key
     SwapDs,
     /// inject a new attacker RRset into the section; `own` = owner is the query name of that
@@ -756,7 +763,24 @@ fn apply_fault(m: &mut Message, f: &Fault, qname: &Name, qtype: RecordType, zone
                         !(k.0 == key.0 && k.1 == key.1)
                     });
                 }
-                Op::AddRecord | Op::AddRecordOtherClass => {
+                Op::Reverse => {
+                    if key.2 {
+                        return Err("is-rrsig");
+                    }
+                    let at: Vec<usize> = (0..v.len())
+                        .filter(|i| {
+                            let k = rrset_key(&v[*i]);
+                            !k.2 && k.0 == key.0 && k.1 == key.1
+                        })
+                        .collect();
+                    if at.len() < 2 {
+                        return Err("single-record-rrset");
+                    }
+                    for j in 0..at.len() / 2 {
+                        v.swap(at[j], at[at.len() - 1 - j]);
+                    }
+                }
+                Op::AddRecord | Op::AddRecordOtherClass | Op::AddRecordTwice => {
                     if key.2 {
                         return Err("is-rrsig");
                     }
@@ -769,6 +793,9 @@ fn apply_fault(m: &mut Message, f: &Fault, qname: &Name, qtype: RecordType, zone
                     let mut added = rec(&owner, ttl, d);
                     if f.op == Op::AddRecordOtherClass {
                         added.dns_class = hickory_proto::rr::DNSClass::CH;
+                    }
+                    if f.op == Op::AddRecordTwice {
+                        v.insert(idx + 1, added.clone());
                     }
                     v.insert(idx + 1, added);
                 }
@@ -829,6 +856,8 @@ struct Armed {
 
 struct UpInner {
     world: Arc<World>,
+    /// false while the validator's cache is being warmed with the genuine responses
+    enabled: std::sync::atomic::AtomicBool,
     armed: Vec<Armed>,
     log: Mutex<Vec<Exchange>>,
     inapplicable: Mutex<Option<&'static str>>,
@@ -852,7 +881,7 @@ impl DnsHandle for Upstream {
             let zone = inner.world.route(&q.name, q.query_type).origin.clone();
             let mut m = honest.clone();
             let mut tampered = 0;
-            for a in &inner.armed {
+            for a in inner.armed.iter().filter(|_| inner.enabled.load(std::sync::atomic::Ordering::SeqCst)) {
                 if a.qtype == q.query_type && a.qname.to_lowercase() == q.name.to_lowercase() {
                     match apply_fault(&mut m, &a.fault, &q.name, q.query_type, &zone, &inner.world) {
                         Ok(()) => tampered += 1,
@@ -899,12 +928,15 @@ struct Run {
     inapplicable: Option<&'static str>,
 }
 
-/// one validation by a fresh `DnssecDnsHandle` (fresh validation cache) at BASE + 1 h
-fn run_validation(world: &Arc<World>, armed: Vec<Armed>, q: &Query) -> Run {
+/// one validation by a fresh `DnssecDnsHandle` at BASE + 1 h. `warm`: the same handle first
+/// resolves the query against the genuine responses (which fills its validation cache with the
+/// verdicts on the genuine RRsets), then the faults are switched on and the query is asked again
+fn run_validation(world: &Arc<World>, armed: Vec<Armed>, q: &Query, warm: bool) -> Run {
     debug_assert!(clock::is_virtual());
     clock::set_virtual_nanos(QUERY_AFTER * 1_000_000_000);
     let up = Upstream(Arc::new(UpInner {
         world: world.clone(),
+        enabled: std::sync::atomic::AtomicBool::new(!warm),
         armed,
         log: Mutex::new(vec![]),
         inapplicable: Mutex::new(None),
@@ -920,6 +952,12 @@ fn run_validation(world: &Arc<World>, armed: Vec<Armed>, q: &Query) -> Run {
     let mut options = DnsRequestOptions::default();
     options.use_edns = true;
     options.edns_set_dnssec_ok = true;
+    if warm {
+        let _ = crate::core::catch(|| futures_executor::block_on(handle.lookup(q.clone(), options).first_answer()));
+        up.0.log.lock().unwrap_or_else(|e| e.into_inner()).clear();
+        *up.0.inapplicable.lock().unwrap_or_else(|e| e.into_inner()) = None;
+        up.0.enabled.store(true, std::sync::atomic::Ordering::SeqCst);
+    }
     let res = crate::core::catch(|| futures_executor::block_on(handle.lookup(q.clone(), options).first_answer()));
     let res = match res {
         Ok(r) => r,
@@ -1018,7 +1056,7 @@ fn prepare(sc: &Scenario) -> std::rc::Rc<Prepared> {
             learn_genuine(&mut genuine, &m);
         }
     }
-    let run = run_validation(&world, vec![], &query);
+    let run = run_validation(&world, vec![], &query, false);
     for ex in &run.log {
         learn_genuine(&mut genuine, &ex.honest);
     }
@@ -1161,9 +1199,17 @@ fn enumerate_faults(world: &World, log: &[Exchange], keep_first: bool) -> Vec<Fa
                     push(sec, i, Op::DropRrsigs);
                 }
                 push(sec, i, Op::DropRrset);
+                if v.iter().filter(|x| {
+                    let k = rrset_key(x);
+                    !k.2 && k.0 == key.0 && k.1 == key.1
+                }).count() >= 2
+                {
+                    push(sec, i, Op::Reverse);
+                }
                 if attacker_rdata(key.1, &r.name, &ex.zone, &world.attacker, Some(&r.data)).is_some() {
                     push(sec, i, Op::AddRecord);
                     push(sec, i, Op::AddRecordOtherClass);
+                    push(sec, i, Op::AddRecordTwice);
                     for sig in [Sig::Keep, Sig::None, Sig::Attacker] {
                         if sig == Sig::Keep && !has_sigs {
                             continue;
@@ -1664,6 +1710,8 @@ fn op_label(op: &Op) -> &'static str {
         Op::Replace { sig: Sig::Attacker } => "replace-attacker-signed",
         Op::AddRecord => "add-record",
         Op::AddRecordOtherClass => "add-record-class-ch",
+        Op::AddRecordTwice => "add-record-twice",
+        Op::Reverse => "reverse-rrset-order",
         Op::SwapDs => "swap-ds",
         Op::Inject { signed: false, .. } => "inject-unsigned",
         Op::Inject { signed: true, .. } => "inject-attacker-signed",
@@ -1740,7 +1788,14 @@ fn run_case(sc: &Scenario, pick: impl FnOnce(&Prepared) -> Result<Vec<Planned>, 
         rec.discard(format!("fault-free-run-failed:{}", f.sig));
         return Ok(());
     }
-    let run = run_validation(&p.world, planned.iter().map(|f| f.armed.clone()).collect(), &p.query);
+    // half of the cases (always for the duplicate injection, whose cold run equals add-record's)
+    // meet a validator that has already validated the genuine responses to this query
+    // (only when a fault sits on the top-level response: with cached verdicts on the genuine
+    // RRsets the validator does not ask for the chain again, faults there would never be delivered)
+    let warm = planned.iter().any(|f| matches!(f.kind, Kind::Top))
+        && (planned.iter().any(|f| f.armed.fault.op == Op::AddRecordTwice) || fixed_hash(&[b"c07-warm", describe(&p, &planned).as_bytes()]) & 1 == 1);
+    rec.class(if warm { "validator/warm-validation-cache" } else { "validator/cold" });
+    let run = run_validation(&p.world, planned.iter().map(|f| f.armed.clone()).collect(), &p.query, warm);
     if let Some(why) = run.inapplicable {
         rec.discard(format!("fault-inapplicable:{why}"));
         return Ok(());
@@ -1812,7 +1867,7 @@ fn scenarios(seed: u64, n: usize) -> Vec<Scenario> {
 fn constructive(f: &Fault) -> bool {
     matches!(
         f.op,
-        Op::Replace { .. } | Op::Inject { .. } | Op::DropRrset | Op::DropRrsigs | Op::SwapDs | Op::AddRecord | Op::AddRecordOtherClass | Op::Empty | Op::StripDnssec | Op::DropNsec | Op::Replay { .. }
+        Op::Replace { .. } | Op::Inject { .. } | Op::DropRrset | Op::DropRrsigs | Op::SwapDs | Op::AddRecord | Op::AddRecordOtherClass | Op::AddRecordTwice | Op::Empty | Op::StripDnssec | Op::DropNsec | Op::Replay { .. }
     )
 }
 
@@ -1855,7 +1910,7 @@ fn pick_double(c: &DoubleCase, p: &Prepared) -> Result<Vec<Planned>, String> {
         if p.base_ok.is_err() {
             return Err("fault-free-run-failed".into());
         }
-        let run_a = run_validation(&p.world, vec![pa.armed.clone()], &p.query);
+        let run_a = run_validation(&p.world, vec![pa.armed.clone()], &p.query, false);
         let base_keys: BTreeSet<(String, u16)> = p.base_log.iter().map(|e| (e.qname.to_lowercase().to_ascii(), u16::from(e.qtype))).collect();
         let new_idx: Vec<usize> = first_occurrences(&run_a.log, true)
             .into_iter()
@@ -2035,7 +2090,7 @@ struct ServerRun {
 
 fn run_server(world: &Arc<World>, armed: Vec<Armed>, q: &Query, cd: bool) -> Result<ServerRun, Fail> {
     clock::set_virtual_nanos(QUERY_AFTER * 1_000_000_000);
-    let up = Upstream(Arc::new(UpInner { world: world.clone(), armed, log: Mutex::new(vec![]), inapplicable: Mutex::new(None) }));
+    let up = Upstream(Arc::new(UpInner { world: world.clone(), enabled: std::sync::atomic::AtomicBool::new(true), armed, log: Mutex::new(vec![]), inapplicable: Mutex::new(None) }));
     let mut anchors = TrustAnchors::empty();
     let az = world.zone(world.sc.anchor.zone);
     for (i, k) in az.keys.iter().enumerate() {
